@@ -35,7 +35,7 @@ ASSUMPTIONS = ["reference decoders written from WHATWG urlencoded / RFC 6265 / R
                "assigning view *objects* (req.query = other.query) is not exercised, only pair lists"]
 LEVEL_TEXT = "randomised search per view with explicit round-trip and reference-decoder oracles"
 LEVEL_NOTE = "trusts the reference decoders in this file"
-QUICK_N, THOROUGH_N = 800_000, 6_000_000
+QUICK_N, THOROUGH_N = 600_000, 6_000_000
 
 # ------------------------------------------------------------------ generator (seeded PRNG, see lib/dmgen.py)
 _SEP = ["&", "=", ";", "+", "%", "%41", "%zz", " ", '"', "\\", ",", "#", "?", "/", ":", "'", "\t", "\r\n", "\n", "\r",
